@@ -36,7 +36,7 @@ def outdir(prop):
 
 # --------------------------------------------------------------------------- harness build
 
-def build_harness(workdir, race=False, pkg="."):
+def build_harness(workdir, race=False, pkg=".", driver="all"):
     """go test -c of the harness against REPO's working tree (hooks on: -tags verif)."""
     b = os.path.join(workdir, "build")
     os.makedirs(b, exist_ok=True)
@@ -46,7 +46,7 @@ def build_harness(workdir, race=False, pkg="."):
         f.write(mod)
     shutil.copy(os.path.join(REPO, "go.sum"), os.path.join(b, "go.sum"))
     binp = os.path.join(workdir, "h-race.test" if race else "h.test")
-    cmd = [GO, "test", "-c", "-tags", "verif", "-modfile=" + os.path.join(b, "go.mod"), "-o", binp]
+    cmd = [GO, "test", "-c", "-tags", "verif,drv_" + driver, "-modfile=" + os.path.join(b, "go.mod"), "-o", binp]
     env = goenv()
     if race:
         cmd.insert(3, "-race")
@@ -442,7 +442,7 @@ def standard_check(prop, tier, seed, fam):
     """
     t0 = time.time()
     wd = outdir(prop)
-    binp = build_harness(wd)
+    binp = build_harness(wd, driver=fam["driver"])
     states, trans, scheds, notes, scen = fam["models"](wd, tier, seed)
     n = fam["n_random"][tier]
     traces, st = run_harness(binp, fam["driver"], wd, scheds=scheds, n=n, seed=seed, opt=fam.get("opt", ""))
